@@ -19,7 +19,7 @@ pub fn scenarios() -> Vec<Scenario> {
         name: "c03-hostile",
         gen,
         run,
-        quick_runs: 400_000,
+        quick_runs: 1_500_000,
         weight: 1,
         rule: "case = (hostile byte stream, delivery schedule) given to B, A, P, Header::decode, Header::decode_async and decode_raw_header; streams: corrupted valid traffic, plausible header + random body, all strings of <= 2 bytes and every (control, length) pair by run index, maximal declared lengths over short bodies; non-trivial when the stream has >= 2 bytes; distinct by case hash",
     }]
